@@ -61,7 +61,6 @@ func init() {
 	Plans["C05"].Prefixes = append(Plans["C05"].Prefixes, "H_C02_tonumber")
 	Plans["C18"].Prefixes = append(Plans["C18"].Prefixes, "H_C02_tonumber")
 	Plans["C17"].Prefixes = append(Plans["C17"].Prefixes, "H_C01_wide")
-	Plans["C03"].Prefixes = append(Plans["C03"].Prefixes, "H_C01_wide")
 }
 
 // heavyHarness: relative cost rank (measured); unlisted harnesses rank 0.
